@@ -1057,12 +1057,15 @@ func (r *runningStep) startPlugin() deployer.Plugin {
 		if err != nil {
 			r.logger.Debugf("error due to step early closure: %s", err.Error())
 		}
+		r.markNotDeployFailed()
 		r.closedEarly(StageIDEnabling, true)
 		return nil
 	} else if err != nil {
 		r.deployFailed(err)
 		return nil
 	}
+	// The deployment succeeded, so the deploy_failed stage cannot occur anymore.
+	r.markNotDeployFailed()
 	r.lock.Lock()
 	select {
 	case <-r.ctx.Done():
@@ -1345,6 +1348,10 @@ func (r *runningStep) runStage(forceCloseTimeoutMS int64) error {
 	// Execution complete, move to state running stage outputs, then to state finished stage.
 	r.transitionRunningStage(StageIDOutput)
 	r.completeStep(r.currentStage, step.RunningStepStateFinished, &result.OutputID, &result.OutputData)
+	// The step finished with an output, so it can neither crash nor be closed anymore.
+	err := fmt.Errorf("step %s/%s finished", r.runID, r.pluginStepID)
+	r.markNotCrashable(err)
+	r.markNotClosable(err)
 
 	return nil
 }
@@ -1375,6 +1382,19 @@ func (r *runningStep) markNotClosable(err error) {
 	r.stageChangeHandler.OnStepStageFailure(r, string(StageIDClosed), &r.wg, err)
 }
 
+// markNotCrashable declares that the crashed stage will not occur. Without this, an output that depends
+// on the crashed stage of a step that ended another way is only given up by the fallback deadlock detection,
+// which does not trigger while any other step is still running.
+func (r *runningStep) markNotCrashable(err error) {
+	r.stageChangeHandler.OnStepStageFailure(r, string(StageIDCrashed), &r.wg, err)
+}
+
+// markNotDeployFailed declares that the deploy_failed stage will not occur.
+func (r *runningStep) markNotDeployFailed() {
+	r.stageChangeHandler.OnStepStageFailure(r, string(StageIDDeployFailed), &r.wg,
+		fmt.Errorf("deployment did not fail for step %s/%s", r.runID, r.pluginStepID))
+}
+
 func (r *runningStep) deployFailed(err error) {
 	r.logger.Debugf("Deploy failed stage for step %s/%s", r.runID, r.pluginStepID)
 	r.transitionRunningStage(StageIDDeployFailed)
@@ -1389,6 +1409,7 @@ func (r *runningStep) deployFailed(err error) {
 	// If deployment fails, enabling, disabled, starting, running, and output cannot occur.
 	err = fmt.Errorf("deployment failed for step %s/%s", r.runID, r.pluginStepID)
 	r.markStageFailures(StageIDEnabling, err)
+	r.markNotCrashable(err)
 	r.markNotClosable(err)
 }
 
@@ -1412,6 +1433,7 @@ func (r *runningStep) transitionToDisabled() {
 
 	err := fmt.Errorf("step %s/%s disabled", r.runID, r.pluginStepID)
 	r.markStageFailures(StageIDStarting, err)
+	r.markNotCrashable(err)
 	r.markNotClosable(err)
 }
 
@@ -1434,6 +1456,7 @@ func (r *runningStep) closedEarly(stageToMarkUnresolvable StageID, priorStageFai
 
 	err := fmt.Errorf("step %s/%s closed due to workflow termination", r.runID, r.pluginStepID)
 	r.markStageFailures(stageToMarkUnresolvable, err)
+	r.markNotCrashable(err)
 }
 
 func (r *runningStep) startFailed(err error) {
